@@ -289,6 +289,12 @@ inductive Op where
   | fundRouter (who n : Nat)          -- plain transfer of the asset to the router
   | nextLoanBy (who amount : Nat) (payload : List RAct)   -- router NextLoan called directly by account `who`
   | completeLoanBy (who initiator amount : Nat)           -- router CompleteLoan called directly by `who`
+  /-- messages a cw20-LP vault must refuse whatever they carry: `ExecuteMsg::Withdraw {}` sent directly
+      with any attached coins (`kind = 0`; the token-factory entry point: the LP denom it compares with
+      is empty, `contract.rs`), a `Withdraw` hook arriving from a token that is not the LP token
+      (`kind = 1`; `ExternalCallback`, `execute/receive/mod.rs`), `Callback(AfterTrade{a, b})` sent by an
+      account that is not the vault itself (`kind = 2`; `ExternalCallback`, `execute/callback/mod.rs`) -/
+  | foreign (kind who a b : Nat)
 deriving Repr
 
 def step (s : St) : Op → Option St
@@ -310,6 +316,7 @@ def step (s : St) : Op → Option St
   | .nextLoanBy _ _ _ => none
   -- CompleteLoan: the sender must be the router itself; accounts 0..3 never are
   | .completeLoanBy _ _ _ => none
+  | .foreign _ _ _ _ => none
 
 /-- a failed transaction leaves the state untouched -/
 def apply (s : St) (op : Op) : St := (step s op).getD s
